@@ -143,7 +143,7 @@ class Folder:
             m = node.func.attr
             if m in ("to", "float", "int", "long", "double", "type", "clone", "contiguous", "item", "detach"):
                 return self.fold(node.func.value)
-            if m in ("abs", "sum", "prod", "min", "max", "sign", "tanh", "sqrt", "exp", "argmin", "argmax", "amin", "amax", "all", "any", "numel", "dim", "conj"):
+            if m in ("abs", "sum", "prod", "min", "max", "sign", "tanh", "sqrt", "exp", "argmin", "argmax", "amin", "amax", "all", "any", "numel", "dim", "conj", "mean"):
                 fake = ast.Call(func=ast.Attribute(value=ast.Name(id="torch", ctx=ast.Load()), attr=m, ctx=ast.Load()), args=[node.func.value] + list(node.args), keywords=list(node.keywords))
                 return self.fold(fake)
             raise Unfoldable(f"method {m}")
@@ -177,11 +177,13 @@ class Folder:
             if short == "fmod" and len(node.args) == 2:
                 a, b = self.fold(node.args[0]), self.fold(node.args[1])
                 return _ew(lambda x, y: math.fmod(x, y) if isinstance(x, float) or isinstance(y, float) else (x % y if x >= 0 else -((-x) % y)), a, b)
-            if short in ("sum", "prod", "amin", "amax", "argmin", "argmax") and node.args:
+            if short in ("sum", "prod", "amin", "amax", "argmin", "argmax", "mean") and node.args:
                 v = self.fold(node.args[0])
                 if isinstance(v, list) and v and not any(isinstance(x, list) for x in v):
                     if short == "sum":
                         return sum(v)
+                    if short == "mean":
+                        return sum(v) / len(v)
                     if short == "prod":
                         out = 1
                         for x in v:
